@@ -285,6 +285,12 @@ class XsdSimpleType(XsdType, ValidationMixin[str | bytes, DecodedValueType]):
                         "if the base type has the same facet with value %r")
                 self.parse_error(msg % explicit_tz_facet.value)
 
+        primitive_type = getattr(self, 'primitive_type', None)
+        if primitive_type is not None and primitive_type.name in nm.QNAME_TAGS:
+            # The length facets are not applied to atomic types derived from xs:QName
+            # and xs:NOTATION (https://www.w3.org/Bugs/Public/show_bug.cgi?id=4009)
+            min_length = max_length = None
+
         self.min_length = min_length
         self.max_length = max_length
 
